@@ -131,7 +131,8 @@ func targetsToRemove(graph *core.BuildGraph, filter, targets, targetsToKeep []co
 	ret := make(core.BuildLabels, 0, len(keepTargets))
 	retSrcs := []string{}
 	for _, target := range graph.AllTargets() {
-		if sibling := gcSibling(graph, target); !sibling.HasParent() && !keepTargets[sibling] && isIncluded(sibling, filter) {
+		// A target shares its gc_sibling's fate, but is never removed while something we keep still needs it.
+		if sibling := gcSibling(graph, target); !keepTargets[target] && !sibling.HasParent() && !keepTargets[sibling] && isIncluded(sibling, filter) {
 			ret = append(ret, target.Label)
 			for _, src := range target.AllLocalSourcePaths() {
 				if !keepSrcs[src] {
